@@ -446,6 +446,10 @@ pub struct Pred {
     pub causes: BTreeSet<ErrKind>,
     /// false: the property text does not pin this call down; executed, not judged for C08
     pub judged: bool,
+    /// the call may be refused (not judged then), but if it returns Ok the pairs and the return
+    /// value are pinned down: a foreign value written under the signer's own key entry is
+    /// overwritten by the signer's key; a list value is stored verbatim
+    pub judged_ok_only: bool,
     pub why_unjudged: &'static str,
     /// predicted encoded size of `next` with the signer's signature length
     pub size: usize,
@@ -536,10 +540,11 @@ impl Model {
 
     /// Predict one mutator call.
     #[allow(clippy::too_many_lines)]
-    pub fn predict(&self, op: &Op, signer: &SignerInfo, pk_sel_bytes: Option<Vec<u8>>) -> Pred {
+    pub fn predict(&self, op: &Op, signer: &SignerInfo, pk_sel: Option<(PkKind, Vec<u8>)>) -> Pred {
         let mut next = self.clone();
         let mut causes: BTreeSet<ErrKind> = BTreeSet::new();
         let mut judged = true;
+        let ok_only = std::cell::Cell::new(false);
         let mut why = "";
         let mut ret = Ret::Unit;
         let signer_entry = signer.pk_kind.entry_key().to_vec();
@@ -553,16 +558,22 @@ impl Model {
                          key: &[u8],
                          raw: Vec<u8>| {
             if is_pk_entry(key) {
-                if !(key == signer_entry.as_slice() && raw == signer_entry_raw) {
+                if key == signer_entry.as_slice() && raw == signer_entry_raw {
+                    // the signer's own key: fully pinned down
+                } else if key == signer_entry.as_slice() {
+                    // overwritten by the signer's key if the call succeeds
+                    ok_only.set(true);
+                    *why = "signer's key entry written with another value";
+                } else {
                     *judged = false;
-                    *why = "public-key entry written with something other than the signer's key";
+                    *why = "public-key entry of another scheme written";
                 }
             } else {
                 let vc = value_causes(key, &raw);
                 if vc.is_empty() {
                     if let Ok(it) = rlp::parse_item(&raw) {
                         if it.list && !rlp::deep_canonical(&raw) {
-                            *judged = false;
+                            ok_only.set(true);
                             *why = "inner bytes of a list value";
                         }
                     }
@@ -677,10 +688,10 @@ impl Model {
                 ret = Ret::RemIns(removed, inserted);
             }
             Op::SetPublicKey(_) => {
-                let given = pk_sel_bytes.unwrap_or_default();
-                if given != signer.pk {
-                    judged = false;
-                    why = "set_public_key with a key other than the signer's";
+                // the given key is written under its own entry name, then the signer's key is
+                let (gkind, given) = pk_sel.unwrap_or((signer.pk_kind, Vec::new()));
+                if given != signer.pk || gkind != signer.pk_kind {
+                    write(&mut next, &mut causes, &mut judged, &mut why, gkind.entry_key(), rlp::enc_str(&given));
                 }
             }
         }
@@ -721,6 +732,7 @@ impl Model {
             ret,
             causes,
             judged,
+            judged_ok_only: ok_only.get(),
             why_unjudged: why,
             size,
         }
